@@ -630,3 +630,9 @@ mod tests {
         );
     }
 }
+
+// Verification harnesses (Kani); the sources live outside this repository.
+#[cfg(feature = "verif")]
+mod verif {
+    include!(concat!(env!("VHOST_VERIF_DIR"), "/harness/vub_bitmap.rs"));
+}
